@@ -101,6 +101,8 @@ def canon(e, sc, depth=0):
         return "(" + a + " " + op + " " + b + ")"
     if k == "subscript":
         return canon(e["base"], sc, depth + 1) + "[" + canon(e["idx"], sc, depth + 1) + "]"
+    if k == "assign":
+        return "(" + canon(e["l"], sc, depth + 1) + " " + e["op"] + " " + canon(e["r"], sc, depth + 1) + ")"
     if k == "cond":
         return "(" + canon(e["c"], sc, depth + 1) + " ? " + canon(e["a"], sc, depth + 1) + " : " + canon(e["b"], sc, depth + 1) + ")"
     if k in ("call", "conv"):
